@@ -150,6 +150,91 @@ fn sequential_and_misuse(seed: u64, r: &mut Report) {
     }
 }
 
+/// The sequential stream of a gate must be unrelated to every indexed value of that gate's relatives
+/// (the gate itself is excluded by the endpoint's own guard; children and siblings are not): the first
+/// 64 sequential words of G are compared, as 64-bit values, with both halves of the indexed values
+/// 0..64 of G/<child> and <sibling> for a list of child names that includes the words the generator
+/// code itself uses.
+fn sequential_vs_indexed(seed: u64, r: &mut Report) {
+    let children = ["sequential", "seq", "indexed", "rng", "left", "right", "0", "prss"];
+    let mut n = 0u64;
+    let mut bad = Vec::new();
+    for base in ["protocol/shuffle", "a", "protocol/iter000/gate0"] {
+        let g = base.split('/').fold(Gate::default(), |g, s| g.narrow(s));
+        let p = make_participants(&mut StdRng::seed_from_u64(seed));
+        let mut words: Vec<HashMap<u64, usize>> = Vec::new();
+        for e in p.iter() {
+            let (mut l, mut rr) = e.sequential(&g);
+            let mut m = HashMap::new();
+            for i in 0..64usize {
+                m.insert(l.next_u64(), i);
+                m.insert(rr.next_u64(), i);
+            }
+            words.push(m);
+        }
+        let mut relatives: Vec<Gate> = children.iter().map(|c| g.narrow(*c)).collect();
+        relatives.push(format!("{base}x").split('/').fold(Gate::default(), |g, s| g.narrow(s)));
+        for rel in &relatives {
+            for (h, e) in p.iter().enumerate() {
+                let ix = e.indexed(rel);
+                for idx in 0..64u32 {
+                    let (a, b): (u128, u128) = ix.generate_values(idx);
+                    n += 1;
+                    for v in [a, b] {
+                        for half in [v as u64, (v >> 64) as u64] {
+                            for (h2, m) in words.iter().enumerate() {
+                                if let Some(i) = m.get(&half) {
+                                    bad.push(format!("word #{i} of the sequential stream of {base} (helper {h2}) equals half of the indexed value at index {idx} of {} (helper {h})", rel.as_ref()));
+                                }
+                            }
+                        }
+                    }
+                }
+            }
+        }
+    }
+    r.add("evaluations", n);
+    r.add("distinct_nontrivial", n);
+    r.add("sequential_vs_indexed_points", n);
+    if let Some(b) = bad.first() {
+        r.violation("prss:sequential-related-to-indexed", &format!("{b} ({} coincidences)", bad.len()), json!({"part":"prss","seed":seed}));
+    }
+}
+
+/// Indices are 32 bits wide. A wider integer handed in as an index must be refused or, if accepted, must
+/// not alias a small index.
+fn wide_indices(seed: u64, r: &mut Report) {
+    let mut n = 0u64;
+    let mut bad = Vec::new();
+    let g = Gate::default().narrow("wide-index");
+    let base: Vec<u128> = vec![0, 1, 5, 255, u128::from(u32::MAX)];
+    let wides: Vec<u128> = vec![1 << 32, (1 << 32) + 1, (1 << 32) + 5, (1 << 33) + 5, (1 << 63) + 5, u128::from(u64::MAX), (1u128 << 64) + 5, u128::MAX];
+    let p = make_participants(&mut StdRng::seed_from_u64(seed));
+    let small: Vec<(u128, (u128, u128))> = {
+        let ix = p[0].indexed(&g);
+        base.iter().map(|b| (*b, ix.generate_values(u32::try_from(*b).unwrap()))).collect()
+    };
+    for w in wides {
+        n += 1;
+        // fresh endpoints: a refusal may panic while the endpoint is locked
+        let q = make_participants(&mut StdRng::seed_from_u64(seed));
+        let ix = q[0].indexed(&g);
+        if let Ok(v) = common::catch(|| -> (u128, u128) { ix.generate_values(w) }) {
+            for (b, sv) in &small {
+                if *sv == v {
+                    bad.push(format!("index {w:#x} is accepted and yields the same values as index {b}"));
+                }
+            }
+        }
+    }
+    r.add("evaluations", n);
+    r.add("distinct_nontrivial", n);
+    r.add("wide_index_points", n);
+    if let Some(b) = bad.first() {
+        r.violation("prss:wide-index-aliases", &format!("{b} ({} aliases)", bad.len()), json!({"part":"prss","seed":seed}));
+    }
+}
+
 macro_rules! cross_shard {
     ($S:literal, $seed:expr, $r:expr, $rt:expr) => {{
         let mut config = TestWorldConfig::default();
@@ -235,6 +320,10 @@ fn run() {
         agreement(seed * 1000 + s, &mut r);
     }
     sequential_and_misuse(seed, &mut r);
+    for s in 0..3 {
+        sequential_vs_indexed(seed * 1000 + 50 + s, &mut r);
+        wide_indices(seed * 1000 + 60 + s, &mut r);
+    }
     cross_shard!(2, seed + 7, r, rt);
     cross_shard!(3, seed + 8, r, rt);
     cross_shard!(5, seed + 9, r, rt);
